@@ -143,15 +143,28 @@ func c12(args []string) {
 		// ONE session for all configurations (a batch that mixes projects): anything the session caches across runs
 		// is shared by them
 		shared := hermes.NewHermesSession()
+		overridden := 0
 		for i, c := range cfgs {
 			pn := fmt.Sprintf("p%d", i)
 			proj := filepath.Join(tmp, "project", pn)
 			os.MkdirAll(proj, 0o755)
-			os.WriteFile(filepath.Join(proj, "config.yml"), []byte(fmt.Sprintf("Dateformat: %s\nDivideCentury: %d\nEndDate: '%s'\n", c.name, c.cent, c.end)), 0o644)
+			// every second configuration gets format and century split from the BATCH LINE (numeric format code) while the
+			// project file names another format and split
+			args := map[string]string{}
+			yml := fmt.Sprintf("Dateformat: %s\nDivideCentury: %d\nEndDate: '%s'\n", c.name, c.cent, c.end)
+			if i%2 == 1 {
+				code := map[string]int{"DateDEshort": 0, "DateDElong": 1, "DateENshort": 2, "DateENlong": 3}[c.name]
+				decoy := []string{"DateENlong", "DateDEshort", "DateDElong", "DateENshort"}[code]
+				yml = fmt.Sprintf("Dateformat: %s\nDivideCentury: %d\nEndDate: '%s'\n", decoy, (c.cent+37)%100, c.end)
+				args["Dateformat"] = fmt.Sprint(code)
+				args["DivideCentury"] = fmt.Sprint(c.cent)
+				overridden++
+			}
+			os.WriteFile(filepath.Join(proj, "config.yml"), []byte(yml), 0o644)
 			gs[i] = hermes.NewGlobalVarsMain()
 			gs[i].Session = shared
 			hp := hermes.NewHermesFilePath(tmp, pn, "u", "", "")
-			hermes.VerifReadConfig(&gs[i], map[string]string{}, &hp)
+			hermes.VerifReadConfig(&gs[i], args, &hp)
 		}
 		checked, langChecked := 0, 0
 		checkDay := func(n int) {
@@ -200,6 +213,7 @@ func c12(args []string) {
 		}
 		fmt.Fprintf(w, "CONFIGURED %d\n", checked)
 		fmt.Fprintf(w, "LANGTAG %d\n", langChecked)
+		fmt.Fprintf(w, "OVERRIDDEN %d\n", overridden)
 	}
 	// the day loop's own day of year and year length against the calendar on a run that crosses the end of the year
 	// 2000 (a leap year divisible by 100): g.TAG is what sowing/harvest day-of-year outputs and the weather index use
